@@ -96,7 +96,7 @@ func TestSemanticsCastsAndArithmetic(t *testing.T) {
 		{`select ('"abc"'::jsonb)::text, ('"abc"'::jsonb) #>> '{}', ('5'::jsonb)::int8, ('2.5'::jsonb)::int8, ('true'::jsonb)::bool`, `"\"abc\"" | "abc" | 5 | 3 | true`},
 		{`select ('"5"'::jsonb)::int8`, `ERR:runtime`},
 		{`select ('1'::jsonb)::bool`, `ERR:runtime`},
-		{`select ('null'::jsonb)::int8, ('null'::jsonb)::bool`, `null | null`}, // PostgreSQL 17+
+		{`select ('null'::jsonb)::int8, ('null'::jsonb)::bool`, `null | null`}, // PostgreSQL 18
 		{`select '{bad'::jsonb`, `ERR:runtime`},
 		{`select 7/2, -7/2, 7%3, -7%3, 7.0/2, 1/3.0`, `3 | -3 | 1 | -1 | 3.5 | 0.333333333`},
 		{`select (1/3.0)::text, (10/3.0)::text, (7.0/2)::text, (2::numeric * 3.50)::text, (1.10 + 2)::text`, `"0.33333333333333333333" | "3.3333333333333333" | "3.5000000000000000" | "7.00" | "3.10"`},
